@@ -251,6 +251,22 @@ def generate(repo, cfg_inc):
               f"static bool verif_bb_not_digit(uint8_t cval, uint8_t base) {{ return ({digit}); }}\n"
               f"static bool verif_bb_reserve_noop(size_t requested_capacity, size_t buffer_capacity) {{ return ({res_noop}); }}\n")
 
+    # 10. both constructors tag the object and remember the allocator before anything can fail
+    ip = _norm(fb("aws_uri_init_parse"))
+    if ip != ("{AWS_ZERO_STRUCT(*uri);uri->self_size=sizeof(structaws_uri);uri->allocator=allocator;"
+              "if(aws_byte_buf_init_copy_from_cursor(&uri->uri_str,allocator,*uri_str)){returnAWS_OP_ERR;}returns_init_from_uri_str(uri);}"):
+        raise GenError("aws_uri_init_parse: no longer `zero; self_size; allocator; copy the text; parse it`")
+    nbb = _norm(bb)
+    if not nbb.startswith("{AWS_ZERO_STRUCT(*uri);if(options->query_string.len&&options->query_params){returnaws_raise_error(AWS_ERROR_INVALID_ARGUMENT);}"
+                          "uri->self_size=sizeof(structaws_uri);uri->allocator=allocator;size_tbuffer_size=0;") or \
+            not nbb.endswith("returns_init_from_uri_str(uri);}") or "if(aws_byte_buf_init(&uri->uri_str,allocator,buffer_size)){returnAWS_OP_ERR;}uri->uri_str.len=0;" not in nbb:
+        raise GenError("aws_uri_init_from_builder_options: prologue (zero, both-queries refusal, self_size, allocator) / buffer init / final re-parse changed shape")
+    ns = _norm(fb("s_init_from_uri_str"))
+    if ns != ("{structuri_parserparser={.state=ON_SCHEME,.uri=uri,};structaws_byte_cursoruri_cur=aws_byte_cursor_from_buf(&uri->uri_str);"
+              "while(parser.state<FINISHED){s_states[parser.state](&parser,&uri_cur);}if(parser.state==FINISHED){returnAWS_OP_SUCCESS;}"
+              "aws_byte_buf_clean_up(&uri->uri_str);AWS_ZERO_STRUCT(*uri);returnAWS_OP_ERR;}"):
+        raise GenError("s_init_from_uri_str: the state loop / error path (free the text, zero the object) changed shape")
+
     tu = f'#include "{path}"\n' + stubs
     info_alnum = {"kind": "value", "params": [("ch", (8, False))], "ret": (1, False), "outs": [], "abort": False}
     info_hex = {"kind": "value", "params": [("value", (8, False))], "ret": (8, False), "outs": [], "abort": False}
